@@ -2,6 +2,7 @@ import Sudachi.Model.Wire
 import Sudachi.Model.CharCat
 import Sudachi.Model.Edit
 import Sudachi.Model.EditAccess
+import Sudachi.Model.EditGhost
 import Sudachi.Model.Lattice
 import Sudachi.Model.LatticeRec
 import Sudachi.Model.LatticeLex
@@ -41,7 +42,7 @@ def answer (line : String) : String :=
     | "C17" => CharCat.handle rest
     | "C08" => if op = "morphc".toList then EditAcc.handleMorphA rest
                else if op = "acc".toList then EditAcc.handleAcc rest
-               else if op = "pyoff".toList then EditAcc.handlePyOff rest else EditM.handle rest
+               else if op = "pyoff".toList then EditAcc.handlePyOff rest else EditG.handle rest
     | "C02" => if op = "build".toList then Vit.handleLex rest else Vit.handleRec rest
     | "C16" => Sentence.handle rest
     | "C13" => Oov.handle op rest
